@@ -182,6 +182,9 @@ def _mk_list_ops():
         op("append(x%d)" % j, lambda L, X, j=j: L.append(X[j]), (j,))
         op("remove(x%d)" % j, lambda L, X, j=j: L.remove(X[j]))
         op("index(x%d)" % j, lambda L, X, j=j: L.index(X[j]))
+        for (st, en) in ((0, 0), (0, 1), (1, 0), (1, 3), (-1, 5), (0, -1), (2, 2), (-3, 0)):
+            op("index(x%d,%d,%d)" % (j, st, en), lambda L, X, j=j, st=st, en=en: L.index(X[j], st, en))
+        op("index(x%d,1)" % j, lambda L, X, j=j: L.index(X[j], 1))
         op("count(x%d)" % j, lambda L, X, j=j: L.count(X[j]))
         op("x%d in" % j, lambda L, X, j=j: X[j] in L)
     op("pop()", lambda L, X: L.pop())
